@@ -1322,7 +1322,7 @@ var propRelay = &kit.Prop[Case]{
 
 func TestRelay(t *testing.T) {
 	kit.Assume("only the last exchange of a script asks to close (requests pipelined behind a closing exchange may legitimately be lost)")
-	kit.Assume("Expect: 100-continue and Upgrade are not generated; trailer sections and chunk extensions are generated but only the body they frame is compared")
+	kit.Assume("Expect: 100-continue and Upgrade are not generated; trailer fields are compared only when announced in Trailer: (net/http's reader drops the others) and, for responses, only at HTTP/1.1 clients; chunk extensions are generated, not compared")
 	kit.Assume("singleton fields (User-Agent, Authorization, Referer, Cookie, Content-Type, ETag, Content-Language) are never repeated; repeated names are list-valued or extension fields")
 	propRelay.Check(t, kit.N(1200, 1500))
 }
